@@ -931,6 +931,8 @@ class vPeriod(TimeBase):
         except TypeError as e:
             raise ValueError('start and end MUST both be datetime instances '
                              'of the same kind or both date instances') from e
+        except OverflowError as e:
+            raise ValueError('the end of the period is out of range') from e
 
         self.params = Parameters({'value': 'PERIOD'})
         # set the timezone identifier
